@@ -651,7 +651,7 @@ func runC05(c *fw.Ctx) {
 	pruned := int64(0)
 	nrounds := 4 + r.Intn(9)
 	flick, fl := (c.Idx/16+c.Idx)%4 == 1, &flicker{}
-	big := !c.Quick() && c.Idx%40 == 0 // long histories with >1000 accumulated dead nodes: several delete batches
+	big := !c.Quick() && (c.Idx/16+c.Idx)%40 == 0 // long histories with >1000 accumulated dead nodes: several delete batches
 	if big {
 		nrounds = 60
 	}
